@@ -239,7 +239,7 @@ def parse_properties(code: str, parse_from=0, parse_to=None) -> list:
         if token_type == TokenType.Selector:
             if not state.nested and flush_pending():
                 # Nested section follows a name without value
-                state.before = parse_from + start
+                state.before = result[-1].after
             state.nested += 1
         elif token_type == TokenType.BlockEnd:
             state.nested -= 1
@@ -247,7 +247,8 @@ def parse_properties(code: str, parse_from=0, parse_to=None) -> list:
         elif not state.nested:
             if token_type == TokenType.PropertyName:
                 if flush_pending():
-                    state.before = parse_from + start
+                    # NB: next item starts where the one without value ends
+                    state.before = result[-1].after
                 state.pending_name = alloc_range(pool, start, end, delimiter)
             elif token_type == TokenType.PropertyValue:
                 if state.pending_name:
